@@ -24,7 +24,7 @@ PROP = {
          "thorough": {"runs": 400000, "max_len": 1000, "workers": 4, "unit_timeout": 60}},
     ],
     "assumptions": [
-        "intervals are 1 ms .. 2^41 ms, with a generated tail around 2^31, 2^32, 2^33, multiples of 2^32 and 2^40 ms (the statement's d >= 1 ms; an interval of 0 is outside the domain)",
+        "intervals are 1 ms .. 2^41 ms plus parked timers of 2^62 .. 2^63-1 ms (milliseconds::max()), with a generated tail around 2^31, 2^32, 2^33, multiples of 2^32 and 2^40 ms (the statement's d >= 1 ms; an interval of 0 is outside the domain)",
         "a TimerEvent is never destroyed inside its own callback (asserted precondition of ~TimerEventImpl); every other operation is also issued from inside callbacks",
         "enable() on a timer that is already enabled is taken to be idempotent: it does not restart the running interval (Event::enable() returns true and does nothing, as in the other event kinds); 'enabled at time t' is the enable() that took the timer from disabled to enabled",
         "initialize() on an enabled timer disables it (the implementation documents this by calling disable() first); the new interval/mode apply from the next enable()",
